@@ -70,6 +70,10 @@ pub fn with_kij(p: &PcSaftParameters, kij: f64) -> PcSaftParameters {
 }
 
 pub fn peng_robinson(n: usize) -> PengRobinson {
+    PengRobinson::new(Arc::new(peng_robinson_params(n)))
+}
+
+pub fn peng_robinson_params(n: usize) -> PengRobinsonParameters {
     let tc = [369.96, 425.2, 507.6];
     let pc = [4250000.0, 3800000.0, 3025000.0];
     let om = [0.153, 0.199, 0.301];
@@ -96,10 +100,14 @@ pub fn peng_robinson(n: usize) -> PengRobinson {
     } else {
         None
     };
-    PengRobinson::new(Arc::new(PengRobinsonParameters::from_records(recs, kij).unwrap()))
+    PengRobinsonParameters::from_records(recs, kij).unwrap()
 }
 
 pub fn pets(n: usize) -> Pets {
+    Pets::new(Arc::new(pets_params(n)))
+}
+
+pub fn pets_params(n: usize) -> PetsParameters {
     let sig = [3.4, 3.63, 3.9];
     let eps = [120.0, 165.0, 230.0];
     let recs: Vec<_> = (0..n)
@@ -124,7 +132,7 @@ pub fn pets(n: usize) -> Pets {
     } else {
         None
     };
-    Pets::new(Arc::new(PetsParameters::from_records(recs, kij).unwrap()))
+    PetsParameters::from_records(recs, kij).unwrap()
 }
 
 pub fn gc_pcsaft(names: &[&str]) -> GcPcSaft {
